@@ -95,6 +95,7 @@ func c15(p *P) {
 	r.Rule("C15.R7", "participant truncates and validates the host chain", 8)
 	p.include(c09, map[string]string{"C09.R6": "C15.R8", "C09.R3": "C15.R8b"}, map[string]string{"C15.R8": "power table of an instance derived from stored certificates only (checkpoint + deltas)", "C15.R8b": "the store's cached head table changes only with a stored certificate"})
 	p.gPowerStoreBase("C15.R9")
+	p.gCommitteeAggregateKeys("C15.R5")
 	r.Rule("C15.R9", "power store anchors the certificate-derived table at the head finalized by the look-back certificate", 2)
 
 	gp := p.fn("C15.R1", "f3.gpbftInputs.GetProposal")
